@@ -11,7 +11,7 @@ from .terms import (build_cond, build_part, build_path, build_rule, build_schema
                     show_part, show_rule, BuildError)
 from .props_a import teq
 
-PROBE_DOCS = [[0, 1, 2, "a", None, [1, 2], {"a": 1}, 1.5, True, "", "1"], {"a": 1, "b": "x", 1: [1], "cc": {"a": 1, "b": 2}},
+PROBE_DOCS = [[0, 1, 2, "a", None, [1, 2], {"a": 1}, 1.5, True, "", "1", -3, 7, 11], {"a": 1, "b": "x", 1: [1], "cc": {"a": 1, "b": 2}},
               [{"a": 1, "b": 2}, {"a": 1}, {}, [], "ab", 4, 6.0], {"a": {"a": 1}, "bb": {"b": 2, "c": 3}, "": 0, 1.5: 2}]
 
 
@@ -124,6 +124,50 @@ def c09_gen(r, tier):
             t = G.leaf(cls, m, *a, **k)
             for key, val in G.leaf_spec_spellings(r, t):
                 yield {"leaf": t, "key": key, "val": val}
+
+
+@clause("C09", "parse-sequence")
+def c09_sequence(w):
+    """Parsing a sequence of specs one after the other gives, for each, the DSL-built condition: a parse does not
+    depend on which specs were parsed before it."""
+    if w.get("fresh_process") and not w.get("_in_child"):
+        # state kept between parses (module-level caches) only shows in a process that has parsed nothing else before
+        import subprocess, sys, json, os
+        code = ("import sys, json, warnings; warnings.simplefilter('ignore'); sys.path[:0] = [%r, %r]\n"
+                "from vf import props_a, props_b, props_c\nfrom vf.core import run_clause\n"
+                "w = json.loads(sys.stdin.read()); w['_in_child'] = True\nf = run_clause('C09', 'parse-sequence', w)\n"
+                "print(json.dumps(f.to_json() if f else None))" % (os.environ.get("VALIDA_SRC", "/repo"),
+                                                                    os.path.dirname(os.path.dirname(os.path.abspath(__file__)))))
+        r = subprocess.run([sys.executable, "-c", code], input=json.dumps(w), capture_output=True, text=True, timeout=120)
+        out = json.loads(r.stdout.strip().splitlines()[-1]) if r.stdout.strip() else None
+        if r.returncode != 0:
+            raise RuntimeError(f"child failed: {r.stderr[-400:]}")
+        return Fail(out["sig"], out["detail"], out["observed"], out["expected"]) if out else None
+    V = ns()
+    for leaf, key, val in w["items"]:
+        dsl = build_cond(leaf, V)
+        try:
+            got = V.c.ConditionLike.from_spec({key: dec(val)})
+        except Exception as e:
+            return Fail(f"raises-after-sequence:{leaf['cls']}.{leaf['m']}:{type(e).__name__}",
+                        f"after parsing {[k for _, k, _ in w['items']]} in this order, from_spec({{{key!r}: ...}}) raised {e!r}")
+        if not (got == dsl):
+            return Fail(f"not-equal-after-sequence:{leaf['cls']}.{leaf['m']}", f"from_spec({key!r}) after a sequence of parses", repr(got), repr(dsl))
+    return None
+
+
+@cases("C09", "parse-sequence")
+def c09_sequence_gen(r, tier):
+    pre = {"Value": ["ValueLength", "ValueDataType"], "Key": ["KeyLength", "KeyDataType"]}
+    for base, pcs in pre.items():
+        for pc in pcs:
+            for m in O.MAPC:
+                first = G.leaf(pc, "equal_to", *G.gen_leaf_args(r, pc, "equal_to", spec_form=True)[0])
+                a, k = G.gen_leaf_args(r, base, m, spec_form=True)
+                second = G.leaf(base, m, *a, **k)
+                k1, v1 = G.leaf_spec_spellings(r, first)[0]
+                k2, v2 = G.leaf_spec_spellings(r, second)[0]
+                yield {"items": [[first, k1, v1], [second, k2, v2]], "fresh_process": True}
 
 
 @clause("C09", "spec-trees")
@@ -637,6 +681,8 @@ def c13_roundtrip(w):
     V = ns()
     st, docs = w["schema"], [dec(d) for d in w["docs"]]
     S = build_schema(st, V)
+    for add in w.get("add", []):
+        S.add_schema(build_schema(add["schema"], V), build_path(add["root"], V))
     for what, obj, cls in [("Schema", S, V.s.Schema)] + [("Rule", rr, V.r.Rule) for rr in S.rules]:
         has_cast = any(x.get("cast") for x in st["rules"])
         tag = f"{what}:{'cast' if has_cast else 'nocast'}"
@@ -697,6 +743,17 @@ def _serialisable_path(r, d):
 @cases("C13", "rule-schema-json-round-trip")
 def c13_gen(r, tier):
     n = 200 if tier == "quick" else 3000
+    T = G.leaf("Value", "truthy")
+    for cast in ({}, {"str": "bool"}, {"str": "int"}):
+        yield {"schema": {"rules": [{"path": {"parts": [{"$prim": "a"}]}, "cond": T, "cast": cast}]},
+               "docs": [enc({"a": "1"}), enc({"a": "true", "b": 2})]}
+    deep = {"path": {"parts": [{"$prim": "cfg"}, {"$prim": "limits"}, {"$prim": "max"}]}, "cond": G.leaf("Value", "less_than", 11), "cast": {"str": "int"}}
+    sub = {"path": {"parts": [{"$prim": "max"}]}, "cond": G.leaf("ValueDataType", "equal_to", {"$type": "int"}), "cast": {"str": "int"}}
+    top = {"path": {"parts": []}, "cond": G.leaf("ValueDataType", "equal_to", {"$type": "dict"})}
+    yield {"schema": {"rules": [deep]}, "add": [{"schema": {"rules": [top, sub]}, "root": {"parts": [{"$prim": "cfg"}]}}],
+           "docs": [enc({"cfg": {"limits": {"max": "10"}, "max": "3"}}), enc({"cfg": [1]})]}
+    yield {"schema": {"rules": [deep]}, "add": [{"schema": {"rules": [sub]}, "root": {"parts": [{"$prim": "cfg"}, {"$prim": "limits"}]}}],
+           "docs": [enc({"cfg": {"limits": {"max": "10"}}}), enc({"cfg": {"limits": {"max": "x"}}}), enc({"cfg": {"limits": {"max": 11}}})]}
     for _ in range(n):
         d = G.gen_doc(r, 3)
         rules = []
@@ -884,6 +941,22 @@ def c14_gen(r, tier):
             yield {"kind": kind, "relation": "atom", "what": tag, "terms": [t, v]}
         if len(vs) >= 2:
             yield {"kind": kind, "relation": "triple", "terms": [vs[0][0], t, vs[1][0]]}
+    a, b, c = G.leaf("Value", "greater_than", 0), G.leaf("Value", "less_than", 5), G.leaf("Value", "equal_to", 2)
+    for op in ("and", "or", "xor"):
+        N = lambda l, r_: {"$c": op, "l": l, "r": r_}
+        for x, y in ((N(a, a), N(a, b)), (N(a, b), N(a, a)), (N(a, a), N(b, b)), (N(N(a, b), N(b, a)), N(N(a, b), c)),
+                     (N(a, a), N(a, a)), (N(N(a, a), b), N(N(a, b), b))):
+            yield {"kind": "cond", "relation": "atom", "what": "duplicate-operands", "terms": [x, y]}
+            yield {"kind": "cond", "relation": "atom", "what": "duplicate-operands", "terms": [y, x]}
+            yield {"kind": "path", "relation": "atom", "what": "duplicate-operands",
+                   "terms": [{"parts": [{"$p": "list", "value": x}]}, {"parts": [{"$p": "list", "value": y}]}]}
+    for m in ("equal_to", "not_equal_to", "in_"):
+        lst, tup = [1, 2], {"$tuple": [1, 2]}
+        args = ([lst], [tup]) if m != "in_" else ([[lst, 3]], [[tup, 3]])
+        x, y = G.leaf("Value", m, *args[0]), G.leaf("Value", m, *args[1])
+        yield {"kind": "cond", "relation": "atom", "what": "list-vs-tuple-argument", "terms": [x, y]}
+        yield {"kind": "rule", "relation": "atom", "what": "list-vs-tuple-argument",
+               "terms": [{"path": {"parts": [{"$p": "mol"}]}, "cond": x}, {"path": {"parts": [{"$p": "mol"}]}, "cond": y}]}
     # int path parts (every integer key/index is a map-or-list part)
     for a, b in ((0, 1), (1, 2), ("a", "b"), (1, True), (1, 1.0)):
         yield {"kind": "path", "relation": "atom", "what": "prim", "terms": [{"parts": [{"$prim": a}]}, {"parts": [{"$prim": b}]}]}
